@@ -279,6 +279,7 @@ where
         after_special: false,
         force_drain: false,
         trace: Some(vec![]),
+        snapshot: None,
     };
     src.trace = Some(vec![]);
     src.order_on = true;
@@ -550,4 +551,86 @@ pub fn replay_special(prop: u8, text: &str) -> Result<Option<Failure>, String> {
         SVerdict::Fail(f) => Ok(Some(f)),
         SVerdict::HarnessBug(m) => Err(m),
     }
+}
+
+// ---------------------------------------------------------------------------------------------
+// C15: zero-sized item / priority types (exhaustive over sequences of length <= 2, 4 carriers)
+
+#[cfg(feature = "std")]
+pub fn zst_battery() -> Option<Failure> {
+    use priority_queue::{DoublePriorityQueue, PriorityQueue};
+    use serde::de::value::SeqDeserializer;
+    use serde::Deserialize as De;
+    #[derive(PartialEq, Eq, Hash, PartialOrd, Ord, Clone, Debug, serde::Serialize, serde::Deserialize)]
+    struct U;
+    fn judge<Q>(what: &str, n: usize, r: std::thread::Result<Result<(usize, usize), String>>) -> Option<Failure> {
+        let _ = std::marker::PhantomData::<Q>;
+        let fail = |clause: &'static str, d: String| Some(Failure { group: Group::Serde, clause, step: 0, op: "deser_seq", detail: d, kind: "PQ" });
+        match r {
+            Err(_) => fail("zst_panic", format!("deserializing {} pairs of zero-sized item/priority as {} panicked: {}", n, what, last_panic_message())),
+            Ok(Err(e)) => {
+                if n <= 1 {
+                    fail("zst_err", format!("deserializing {} pairs as {} failed: {}", n, what, e))
+                } else {
+                    None
+                }
+            }
+            Ok(Ok((len, cnt))) => {
+                if len != cnt || len != n.min(1) {
+                    fail("zst_len", format!("deserializing {} pairs as {} gives len {} with {} elements", n, what, len, cnt))
+                } else {
+                    None
+                }
+            }
+        }
+    }
+    macro_rules! run {
+        ($T:ty, $what:expr, $item:expr, $json_item:expr) => {
+            for n in 0..3usize {
+                let text = format!("[{}]", vec![$json_item; n].join(","));
+                let r = catch_unwind(AssertUnwindSafe(|| serde_json::from_str::<$T>(&text).map(|q| (q.len(), q.iter().count())).map_err(|e| e.to_string())));
+                if let Some(f) = judge::<$T>(concat!($what, " from JSON text"), n, r) {
+                    return Some(f);
+                }
+                let r = catch_unwind(AssertUnwindSafe(|| {
+                    let v: serde_json::Value = serde_json::from_str(&text).unwrap();
+                    serde_json::from_value::<$T>(v).map(|q| (q.len(), q.iter().count())).map_err(|e| e.to_string())
+                }));
+                if let Some(f) = judge::<$T>(concat!($what, " from serde_json::Value"), n, r) {
+                    return Some(f);
+                }
+                let r = catch_unwind(AssertUnwindSafe(|| {
+                    let vals: Vec<serde_json::Value> = (0..n).map(|_| serde_json::from_str($json_item).unwrap()).collect();
+                    let d: SeqDeserializer<_, serde_json::Error> = SeqDeserializer::new(vals.into_iter());
+                    <$T as De>::deserialize(d).map(|q| (q.len(), q.iter().count())).map_err(|e| e.to_string())
+                }));
+                if let Some(f) = judge::<$T>(concat!($what, " from a SeqDeserializer"), n, r) {
+                    return Some(f);
+                }
+                let r = catch_unwind(AssertUnwindSafe(|| {
+                    let mut dst: $T = Default::default();
+                    let mut de = serde_json::Deserializer::from_str(&text);
+                    De::deserialize_in_place(&mut de, &mut dst).map(|_| (dst.len(), dst.iter().count())).map_err(|e| e.to_string())
+                }));
+                if let Some(f) = judge::<$T>(concat!($what, " in place"), n, r) {
+                    return Some(f);
+                }
+                // round trip of a one-element queue
+                let r = catch_unwind(AssertUnwindSafe(|| {
+                    let mut q: $T = Default::default();
+                    q.push($item, $item);
+                    let s = serde_json::to_string(&q).map_err(|e| e.to_string())?;
+                    serde_json::from_str::<$T>(&s).map(|q2| (q2.len() + (q2 != q) as usize * 7, q2.iter().count())).map_err(|e| e.to_string())
+                }));
+                if let Some(f) = judge::<$T>(concat!($what, " round trip"), 1, r) {
+                    return Some(f);
+                }
+            }
+        };
+    }
+    run!(PriorityQueue<(), ()>, "PriorityQueue<(),()>", (), "[null,null]");
+    run!(DoublePriorityQueue<(), ()>, "DoublePriorityQueue<(),()>", (), "[null,null]");
+    run!(PriorityQueue<U, U>, "PriorityQueue<UnitStruct,UnitStruct>", U, "[null,null]");
+    run!(DoublePriorityQueue<U, U>, "DoublePriorityQueue<UnitStruct,UnitStruct>", U, "[null,null]");
+    None
 }
